@@ -152,6 +152,9 @@ def gen(ctx, deep):
                     jobs.append((cfg, [("autosave", False), a]))
                     jobs.append((cfg, [("autonotify", False), ("setwatcher",), a]))
                     jobs.append((cfg, [("setwatcher",), a]))
+                    # the watcher is REPLACED by another object of the same kind after a call of the same sort was already served
+                    b = next((o for o in ops if o[0] == a[0] and o != a), a)
+                    jobs.append((cfg, [a, ("swapwatcher", kind, is_async, False), b]))
                     if not is_async:
                         # reloading the MODEL invalidates the policy but must leave watcher and flags alone
                         jobs.append((cfg, [("loadmodel",), a]))
